@@ -7,6 +7,7 @@ import argparse
 import json
 import multiprocessing as mp
 import os
+import re
 import sys
 import time
 
@@ -276,8 +277,24 @@ def main(argv=None):
               fails.append(f)
           if fails:
             sample_stats["failures"] += 1
-            errors.append("%s: proved clause fails natively on %s: %s (engine/contract inconsistency)"
-                          % (u.name, json.dumps(rec["inputs"])[:300], fails))
+            plain = [f for f in fails if f.startswith("post.") and " " not in f]
+            if undecided and plain:
+              # the clause was proved against callee / loop contracts of which at least one is no longer discharged on this
+              # tree (an UNDECIDED obligation): the proof chain is open, and this execution of the REAL code on a sampled
+              # input satisfying the preconditions fails the clause - a failing input, not a checker inconsistency
+              if not any(v[0] == u.name and v[1] == plain[0] for v in violations):
+                path = os.path.join(VERIF, "replays", prop, "%s__%s__native.json" % (u.name, re.sub(r"[^A-Za-z0-9_.]", "_", plain[0])[:120]))
+                with open(path, "w") as f:
+                  json.dump({"property": prop, "unit": u.name, "target": u.target, "obligation": plain[0], "kind": "post",
+                             "inputs": rec["inputs"], "observed": rec,
+                             "open_obligations": ["%s/%s: %s" % x for x in undecided][:10],
+                             "note": "clause proved modularly, but an obligation the proof relies on is no longer discharged; "
+                                     "the real code fails the clause on this sampled input",
+                             "how_to_run": "./check %s --unit %s --replay %s" % (prop, u.name, path)}, f, indent=1)
+                violations.append((u.name, plain[0], path, True, rec))
+            else:
+              errors.append("%s: proved clause fails natively on %s: %s (engine/contract inconsistency)"
+                            % (u.name, json.dumps(rec["inputs"])[:300], fails))
 
   wall = time.time() - t0
   exit_code = 0
